@@ -9,7 +9,7 @@
       Set.__set__(obj, (), undo_funcs)                             -> setCollEmpty
       Attribute.__set__(val, None, undo_funcs)  (reverse call)     -> clearRef
       Set.reverse_remove((x,), item, undo_funcs)                   -> reverseRemove1
-      final block (`cur_status = obj._status_` ... asserts)        -> `assertionError` when a nested frame already deleted `o`
+      `if obj._status_ in del_statuses: return` after the loops    -> a nested frame of the same object (cascade cycle) already finished
     Entity.delete / `except: for undo_func in reversed(undo_funcs): undo_func(); raise` -> deleteTop (a failing call restores the store)
     Database.generate_mapping (on_delete of FK columns / link tables) -> onDelete / linkOnDelete
     Query.delete(bulk=True) under the generated ON DELETE clauses  -> dbDelete
@@ -142,7 +142,7 @@ def hasB (sch : Schema) (s : Store) (p : ObjId) (b : Attr) (q : ObjId) : Bool :=
 inductive Err
   | constraintError    -- ConstraintError: required dependent without cascade
   | recursionError     -- RecursionError: cascade cycle through collections
-  | assertionError     -- AssertionError: the final status block finds the object already deleted by a nested frame; internal asserts
+  | assertionError     -- AssertionError: internal asserts of reverse_remove
   | objectDeleted      -- OperationWithDeletedObjectError
   | valueError         -- ValueError (Required attribute set to None)
   | noSuchAttr         -- not expressible in Python
@@ -232,7 +232,7 @@ def delete (sch : Schema) : Nat → ObjId → Store → R
       match iterE (refStep sch (fun x s => delete sch fuel x s) o) attrs s1 with
       | .error e => .error e
       | .ok s2 =>
-        if !s2.alive o then .error .assertionError                           -- cur_status already 'cancelled' / 'marked_to_delete'
+        if !s2.alive o then .ok s2                                           -- a nested _delete_ of this object (cascade cycle) already finished
         else .ok (s2.setAlive o false)                                       -- 'cancelled' / 'marked_to_delete'
 
 /-- deep enough for every terminating run the tie has produced; Python's own limit is about 250 nested frames -/
